@@ -189,6 +189,33 @@ def grammar_view(pcfg):
     return g, b
 
 
+def lower_guess_traces(tid0, path, desc, meta):
+    """--all_lower at the level of the emitted strings: every pre-terminal of the all-lower grammar must spell exactly what the
+    DEFAULT grammar spells for it when each of its case masks is the all-lower one ("and nothing else changes" - digits,
+    symbols, walks, context strings keep their capitals).  The reference is the default load with its mask lists replaced
+    in memory."""
+    ref = ptq.load_pcfg(path)
+    low = ptq.load_pcfg(path, skip_case=True)
+    for t in list(ref.grammar):
+        if t[0] == 'C':
+            ref.grammar[t] = [{'values': ['L' * int(t[1:])], 'prob': 1.0}]
+    out = []
+    tid = tid0
+    n = 0
+    for b, pt in expand.all_pts(low):
+        if any(t[0] == 'M' for t, _ in pt):
+            continue
+        got, _ = expand.expand_real(low, pt)
+        want, _ = expand.expand_real(ref, pt)
+        n += len(want)
+        if n > 4000:
+            break
+        tid += 1
+        out.append({'tid': tid, 'kind': 'lines', 'lines': [expand.cps(x) for x in got], 'ref': [expand.cps(x) for x in want]})
+        meta[tid] = dict(desc, check='strings spelled under --all_lower', pt=[list(x) for x in pt], got_head=got[:3], want_head=want[:3])
+    return out, tid
+
+
 def lower_trace(tid, path):
     a = ptq.load_pcfg(path)
     b = ptq.load_pcfg(path, skip_case=True)
@@ -234,6 +261,12 @@ def special_rulesets(work):
         d = os.path.join(work, name)
         rulesets.write_ruleset(d, term, base, omen_prob=[(1, 0.5), (2, 0.25)], omen_keyspace=[(1, 1), (2, 1)])
         out.append((d, {'kind': name, 'base': base}))
+    # capitals OUTSIDE the letters the masks apply to (walks typed with shift, context strings) in front of and behind a word
+    termu = dict(term, K4=[('1QAZ', 0.5), ('!QAZ', 0.25), ('zaq1', 0.25)], X1=[('No.1', 0.5), ('Mr.', 0.5)], O1=[('!', 1.0)])
+    d = os.path.join(work, 'capitals_outside_words')
+    base = [('K4A2', 0.5), ('X1A2', 0.25), ('A2K4', 0.125), ('K4A2O1', 0.125)]
+    rulesets.write_ruleset(d, termu, base, omen_prob=[(1, 0.5), (2, 0.25)], omen_keyspace=[(1, 1), (2, 1)])
+    out.append((d, {'kind': 'capitals_outside_words', 'base': base}))
     # a dominant Markov structure next to ONE structure whose terminals all have probability 1: p / (1 - P(M)) rounds to a float
     # just above 1.0 (0.1 / (1.0 - 0.9) = 1.0000000000000002) - the rescaled pre-terminal must still be emitted
     term1 = {'A2': [('ab', 1.0)], 'C2': [('LL', 1.0)], 'D1': [('7', 1.0)]}
@@ -264,6 +297,7 @@ def main(pid, tier, seed):
 
     # ---- code -> spec: streams of the real queue ----
     rdirs = special_rulesets(work)
+    n_lower_strings = [0]
     for k in range(25 if tier == 'quick' else 1200):
         d = os.path.join(work, 'f%d' % k)
         desc = ptq.random_float_ruleset(rng, d, normalize_base=True)
@@ -284,6 +318,13 @@ def main(pid, tier, seed):
             tid += 1
             traces.append(lt)
             meta[tid] = dict(desc, check='all_lower loader')
+        if n_lower_strings[0] < (6000 if tier == 'quick' else 200000):
+            try:
+                lg, tid = lower_guess_traces(tid, d, desc, meta)
+            except Exception:
+                lg = []
+            traces += lg
+            n_lower_strings[0] += sum(len(t_['ref']) for t_ in lg)
 
     # ---- flags come from the save file on --load (real command line) ----
     rcopy = core.repo_copy('cli')
@@ -367,7 +408,7 @@ def main(pid, tier, seed):
            'rule': 'load trace = one real _load_base_structures call on one model file (non-trivial: more than one line); '
                    'stream/lower trace = one ruleset loaded and enumerated with and without the flag; lines trace = two '
                    'pcfg_guesser.py processes (start with flags, resume with plain --load)',
-           'trace_kinds': kinds, 'model_files_instantiated': len(files), 'cli_pairs': len(jobs),
+           'trace_kinds': kinds, 'strings_compared_under_all_lower': n_lower_strings[0], 'model_files_instantiated': len(files), 'cli_pairs': len(jobs),
            'trace_validation': st, 'exhaustive': False, 'known_findings_reproduced': n_known, 'binding_selftest': selftest,
            'violation_histogram': verdict.histogram()}
     core.write_evidence(pid, tier, seed, 'model_checking', cov, time.time() - t0, violations=n_viol,
